@@ -264,6 +264,18 @@ pub fn my_err(s: &str) -> MyErr {
     MyErr(s.to_string())
 }
 
+/// error constructors that are generic over their ARGUMENT (`impl Into<String>` / `S: AsRef<str>`): a path to such a function
+/// is not a `fn(&str) -> E` item
+impl MyErr {
+    pub fn new_any(name: impl Into<String>) -> MyErr {
+        MY_ERR_CALLS.with(|c| c.set(c.get() + 1));
+        MyErr(name.into())
+    }
+}
+pub fn my_err_any<S: AsRef<str>>(s: S) -> MyErr {
+    my_err(s.as_ref())
+}
+
 /// an error constructor whose RETURN type is a type parameter (inferred from `parse_err_ty`)
 pub fn my_err_generic<E: From<MyErr>>(s: &str) -> E {
     E::from(my_err(s))
